@@ -37,6 +37,7 @@ Unfortunately the rules are not iherited from base SQLParser, because it just do
 class MindsDBParser(Parser):
     log = ParserLogger()
     tokens = MindsDBLexer.tokens
+    text = None  # query text, set by parse_sql
 
     precedence = (
         ('left', OR),
@@ -209,7 +210,7 @@ class MindsDBParser(Parser):
     @_('CREATE TRIGGER identifier ON identifier LPAREN raw_query RPAREN')
     @_('CREATE TRIGGER identifier ON identifier COLUMNS column_list LPAREN raw_query RPAREN')
     def create_trigger(self, p):
-        query_str = tokens_to_string(p.raw_query)
+        query_str = tokens_to_string(p.raw_query, self.text)
 
         columns = None
         if hasattr(p, 'column_list'):
@@ -238,10 +239,10 @@ class MindsDBParser(Parser):
        )
     def create_job(self, p):
         if hasattr(p, 'raw_query0'):
-            query_str = tokens_to_string(p.raw_query0)
-            if_query_str = tokens_to_string(p.raw_query1)
+            query_str = tokens_to_string(p.raw_query0, self.text)
+            if_query_str = tokens_to_string(p.raw_query1, self.text)
         else:
-            query_str = tokens_to_string(p.raw_query)
+            query_str = tokens_to_string(p.raw_query, self.text)
             if_query_str = None
 
         job_schedule = getattr(p, 'job_schedule', {})
@@ -671,7 +672,7 @@ class MindsDBParser(Parser):
     @_('CREATE VIEW if_not_exists_or_empty identifier create_view_from_table_or_nothing AS LPAREN raw_query RPAREN',
        'CREATE VIEW if_not_exists_or_empty identifier create_view_from_table_or_nothing LPAREN raw_query RPAREN')
     def create_view(self, p):
-        query_str = tokens_to_string(p.raw_query)
+        query_str = tokens_to_string(p.raw_query, self.text)
 
         return CreateView(name=p.identifier,
                           from_table=p.create_view_from_table_or_nothing,
@@ -827,7 +828,7 @@ class MindsDBParser(Parser):
     def create_predictor(self, p):
         query_str = None
         if hasattr(p, 'raw_query'):
-            query_str = tokens_to_string(p.raw_query)
+            query_str = tokens_to_string(p.raw_query, self.text)
 
         if hasattr(p, 'identifier'):
             # single identifier field
@@ -858,7 +859,7 @@ class MindsDBParser(Parser):
 
         query_str = None
         if hasattr(p, 'raw_query'):
-            query_str = tokens_to_string(p.raw_query)
+            query_str = tokens_to_string(p.raw_query, self.text)
 
         if hasattr(p, 'identifier'):
             # single identifier field
@@ -896,7 +897,7 @@ class MindsDBParser(Parser):
     def create_predictor(self, p):
         query_str = None
         if hasattr(p, 'raw_query'):
-            query_str = tokens_to_string(p.raw_query)
+            query_str = tokens_to_string(p.raw_query, self.text)
 
         if hasattr(p, 'identifier'):
             # single identifier field
@@ -918,7 +919,7 @@ class MindsDBParser(Parser):
     def create_predictor(self, p):
         query_str = None
         if hasattr(p, 'raw_query'):
-            query_str = tokens_to_string(p.raw_query)
+            query_str = tokens_to_string(p.raw_query, self.text)
 
         if hasattr(p, 'identifier'):
             # single identifier field
@@ -948,7 +949,7 @@ class MindsDBParser(Parser):
 
         return Evaluate(
             name=name,
-            query_str=tokens_to_string(p.raw_query),
+            query_str=tokens_to_string(p.raw_query, self.text),
             using=using
         )
 
@@ -1239,7 +1240,7 @@ class MindsDBParser(Parser):
     def from_table(self, p):
         query = NativeQuery(
             integration=p.identifier,
-            query=tokens_to_string(p.raw_query)
+            query=tokens_to_string(p.raw_query, self.text)
         )
         return query
 
